@@ -53,6 +53,10 @@ def run(ctx, replay):
     ctx.model_check("MCNodeRecovery", "MCNodeRecovery_dev_seriesfirst.cfg", expect="violation", timeout=600)
     # ... and the log of an expired family destroyed once everything is consumed instead of acknowledged loses entries
     ctx.model_check("MCNodeRecovery", "MCNodeRecovery_dev_expire.cfg", expect="violation", timeout=600)
+    # undecodable log entries: skipped by IgnoreMessage only directly behind the acknowledged position ...
+    ctx.model_check("MCNodeRecovery", "MCNodeRecovery_code_bad.cfg", timeout=1200)
+    # ... acknowledging one over a gap of good, unflushed entries loses them at the next crash
+    ctx.model_check("MCNodeRecovery", "MCNodeRecovery_dev_ignoregap.cfg", expect="violation", timeout=600)
     tr = os.path.join(ctx.scratch, "node.ndjson")
     scr = os.path.join(ctx.scratch, "scr-node")
     os.makedirs(scr, exist_ok=True)
